@@ -78,20 +78,21 @@ type Duties struct {
 
 // Env is a running controller with its surroundings.
 type Env struct {
-	Opts         Options
-	Clock        *harness.VClock
-	Sched        *harness.CapSched
-	Bus          *harness.CapEvents
-	Duties       *Duties
-	Ctl          *controller.Service
-	Accts        map[uint64]harness.Acct
-	mu           sync.Mutex
-	Events       []Event
-	AttestReturn func(d *attester.Duty) []*phase0.Attestation // what the fake attester returns
-	AttestGate   chan struct{}                                // when set, the fake attester blocks on it after recording the call
-	SyncMissing  map[uint64]bool                              // validators for which the account manager has no account (sync committee lookups by index)
-	inflight     atomic.Int64
-	activity     atomic.Int64
+	Opts          Options
+	Clock         *harness.VClock
+	Sched         *harness.CapSched
+	Bus           *harness.CapEvents
+	Duties        *Duties
+	Ctl           *controller.Service
+	Accts         map[uint64]harness.Acct
+	mu            sync.Mutex
+	Events        []Event
+	AttestReturn  func(d *attester.Duty) []*phase0.Attestation // what the fake attester returns
+	AttestGate    chan struct{}                                // when set, the fake attester blocks on it after recording the call
+	SyncMissing   map[uint64]bool                              // validators for which the account manager has no account (sync committee lookups by index)
+	NotValidating map[uint64]bool                              // validators that have exited: no longer in the validating accounts, still in the sync committee accounts
+	inflight      atomic.Int64
+	activity      atomic.Int64
 	// SyncSubscribeFail makes the (fake) sync committee subscriber refuse.
 	SyncSubscribeFail atomic.Bool
 }
@@ -256,14 +257,24 @@ func (a acctProv) all(idx []phase0.ValidatorIndex) map[phase0.ValidatorIndex]e2w
 	}
 	return out
 }
+
+// validating removes the validators that no longer validate (exited) but are still eligible for sync committee duty.
+func (a acctProv) validating(m map[phase0.ValidatorIndex]e2wtypes.Account) map[phase0.ValidatorIndex]e2wtypes.Account {
+	a.e.mu.Lock()
+	defer a.e.mu.Unlock()
+	for v := range a.e.NotValidating {
+		delete(m, phase0.ValidatorIndex(v))
+	}
+	return m
+}
 func (a acctProv) ValidatingAccountsForEpoch(context.Context, phase0.Epoch) (map[phase0.ValidatorIndex]e2wtypes.Account, error) {
-	return a.all(nil), nil
+	return a.validating(a.all(nil)), nil
 }
 func (a acctProv) ValidatingAccountsForEpochByIndex(_ context.Context, _ phase0.Epoch, idx []phase0.ValidatorIndex) (map[phase0.ValidatorIndex]e2wtypes.Account, error) {
 	if idx == nil {
 		idx = []phase0.ValidatorIndex{}
 	}
-	return a.all(idx), nil
+	return a.validating(a.all(idx)), nil
 }
 func (a acctProv) SyncCommitteeAccountsForEpoch(context.Context, phase0.Epoch) (map[phase0.ValidatorIndex]e2wtypes.Account, error) {
 	return a.all(nil), nil
